@@ -75,6 +75,12 @@ type c02Env struct {
 	unknownEpoch bool
 	served       map[int64]c02Served // what the attached consumer was handed, by offset
 	nserved      int
+	parked       map[string]int // followers currently parked at the beforeFetch gate
+	// gates of c02_gates_test.go
+	respGates  map[string]*c02RespGate
+	applyGates map[string]*c02ApplyGate
+	staleFetches int
+	f8Reached, f9Reached bool
 }
 
 func (e *c02Env) logf(format string, a ...interface{}) {
@@ -137,6 +143,9 @@ func c02Digest(r vfLogRec) uint64 {
 	return h.Sum64()
 }
 
+// c02FamilyCfg lets a family adjust the servers' configuration (c02_gates_test.go).
+var c02FamilyCfg = map[string]func(*Config){}
+
 func c02NewEnv(rep *kit.Report, family string, seed uint64) (*c02Env, error) {
 	e := &c02Env{rep: rep, family: family, seed: seed, stream: "c02s", subject: "c02s.subj",
 		committed: map[int64]uint64{}, commitBy: map[int64]string{}, tags: map[int64]string{}, acked: map[string]int64{},
@@ -147,11 +156,15 @@ func c02NewEnv(rep *kit.Report, family string, seed uint64) (*c02Env, error) {
 		cfg.Clustering.ReplicaFetchTimeout = 400 * time.Millisecond
 		cfg.Clustering.ReplicaMaxLagTime = 1500 * time.Millisecond
 		cfg.Clustering.MinISR = 1
+		if f := c02FamilyCfg[family]; f != nil {
+			f(cfg)
+		}
 	})
 	if err != nil {
 		return nil, err
 	}
 	e.c = c
+	e.installGates(on0(e))
 	// trace hooks
 	on := func(name string, fn vfHookFn) { e.removers = append(e.removers, vfHooks.On(name, fn)) }
 	on("partition.becomeLeader", func(a ...interface{}) error {
@@ -231,10 +244,19 @@ func c02NewEnv(rep *kit.Report, family string, seed uint64) (*c02Env, error) {
 			return nil
 		}
 		stop, _ := a[5].(<-chan struct{})
+		e.mu.Lock()
+		if e.parked == nil {
+			e.parked = map[string]int{}
+		}
+		e.parked[srv]++
+		e.mu.Unlock()
 		select {
 		case <-g:
 		case <-stop:
 		}
+		e.mu.Lock()
+		e.parked[srv]--
+		e.mu.Unlock()
 		return nil
 	})
 	if err := c.CreateStream(&client.CreateStreamRequest{Subject: e.subject, Name: e.stream, ReplicationFactor: 3}); err != nil {
@@ -251,6 +273,7 @@ func (e *c02Env) close() {
 		delete(e.gates, id)
 	}
 	e.mu.Unlock()
+	e.openAllGates()
 	for _, r := range e.removers {
 		r()
 	}
@@ -1053,7 +1076,7 @@ func c02F7(e *c02Env, rng *kit.RNG) {
 	e.settle("f7-end")
 }
 
-var c02Families = map[string]func(*c02Env, *kit.RNG){"F1": c02F1, "F2": c02F2, "F3": c02F3, "F4": c02F4, "F5": c02F5, "F6": c02F6, "F7": c02F7}
+var c02Families = map[string]func(*c02Env, *kit.RNG){"F1": c02F1, "F2": c02F2, "F3": c02F3, "F4": c02F4, "F5": c02F5, "F6": c02F6, "F7": c02F7, "F8": c02F8, "F9": c02F9}
 
 // TestVerifC02 runs the scenarios of one family (env C02_FAMILY), one after
 // the other, each on a fresh cluster.
@@ -1064,7 +1087,7 @@ func TestVerifC02(t *testing.T) {
 	}
 	rep := kit.NewReport("C02", family)
 	defer rep.Write()
-	rep.SetRule("fault-sequence scenarios on real 3-server clusters (RF=3): F1 lagging follower + ISR shrink + leader death with uncommitted tail, F2 double failover with a replication-learned epoch boundary and the first leader rejoining with its tail, F3 follower restart then leader death, F4 shrink/commit/expand then leader death, F5 seeded random walks; every replica is observed after each step and by a 40 ms sampler (HW first, then log content): offsets <= HW go into one committed table and must agree across replicas and time, every leader must hold all committed offsets and all ALL-acked tags; non-trivial = scenario completed all its steps (no watchdog) and saw >=1 leader change; distinct = family+seed")
+	rep.SetRule("fault-sequence scenarios on real 3-server clusters (RF=3): F1 lagging follower + ISR shrink + leader death with uncommitted tail, F2 double failover with a replication-learned epoch boundary and the first leader rejoining with its tail, F3 follower restart then leader death, F4 shrink/commit/expand then leader death, F5 seeded random walks, F6 ISR re-expansion, F7 former leader re-elected, F8 a deposed leader's answer handled after the follower switched leaders (response held at the follower.afterFetch gate), F9 a follower that applies the leader change late keeps fetching with the old epoch from the new leader (partition.setLeader gate); every replica is observed after each step and by a 40 ms sampler (HW first, then log content): offsets <= HW go into one committed table and must agree across replicas and time, every leader must hold all committed offsets and all ALL-acked tags; non-trivial = scenario completed all its steps (no watchdog) and saw >=1 leader change; distinct = family+seed")
 	rep.Assume("network partitions between NATS clients are not simulated: a leader is isolated with the test-only pauseReplication switch and/or Server.Stop(); Stop() checkpoints the HW")
 	fn := c02Families[family]
 	if fn == nil {
@@ -1076,6 +1099,9 @@ func TestVerifC02(t *testing.T) {
 	}
 	if family == "F7" {
 		n = kit.Scale(2, 10) // the decisive election outcome is a coin flip
+	}
+	if family == "F8" || family == "F9" {
+		n = kit.Scale(2, 8)
 	}
 	root := kit.NewRNG(kit.Mix(kit.Seed(), uint64(family[1])))
 	for i := 0; i < n && rep.NumViolations() < 3; i++ {
@@ -1111,9 +1137,15 @@ func TestVerifC02(t *testing.T) {
 		if e.f7Reached {
 			rep.Count("f7_former_leader_reelected_reached", 1)
 		}
+		if e.f8Reached {
+			rep.Count("f8_deposed_leaders_answer_handled_after_the_follower_switched", 1)
+		}
+		if e.f9Reached {
+			rep.Count("f9_stale_epoch_fetches_sent_while_new_leader_led", int64(e.staleFetches))
+		}
 		steps := append([]string(nil), e.steps...)
 		e.mu.Unlock()
-		if complete && (changes >= 2 || family == "F6") {
+		if complete && (changes >= 2 || family == "F6") && (family != "F8" || e.f8Reached) && (family != "F9" || e.f9Reached) {
 			rep.Nontrivial(fmt.Sprintf("%s/%d", family, seed))
 		}
 		rep.Sample(map[string]any{"family": family, "seed": seed, "steps": steps})
